@@ -457,7 +457,11 @@ class BodyParser(ExprParser):
                 name = self.eat().s
                 if self.peek() is not None and self.peek().s == "::":
                     self.eat()
+                    t0 = self.i
                     self.path_generic_skip()
+                    if name == "next_element":
+                        # the element type decides what the call builds (`next_element::<Dummy>()`)
+                        name += "::" + "".join(t.s for t in self.t[t0 : self.i])
                 if self.peek() is not None and self.peek().s == "(":
                     e = ("method", e, name, self.paren_args())
                 else:
